@@ -46,6 +46,7 @@ type inProgressResponseStatus struct {
 	state          graphsync.RequestState
 	startTime      time.Time
 	responseStream responseassembler.ResponseStream
+	subscriber     *subscriber
 	// networkError is set when a message for this response failed to send while its task was
 	// running: nothing more can be sent for it, so it ends when the task does
 	networkError bool
